@@ -36,11 +36,13 @@ pub struct ContractProbe {
     pub inputs: RefCell<u64>,
     pub shapes: RefCell<BTreeSet<String>>,
     pub bad: RefCell<Vec<(String, String)>>, // (key, description)
+    /// (edge name, canonical parameter map) of every starting-vertex / neighbour call
+    pub param_maps: RefCell<BTreeSet<(String, String)>>,
 }
 
 impl ContractProbe {
     pub fn new(world: Arc<World>, ds: Arc<Dataset>) -> Self {
-        ContractProbe { world, ds, calls: Default::default(), inputs: Default::default(), shapes: Default::default(), bad: Default::default() }
+        ContractProbe { world, ds, calls: Default::default(), inputs: Default::default(), shapes: Default::default(), bad: Default::default(), param_maps: Default::default() }
     }
     fn fail(&self, key: &str, what: String) {
         self.bad.borrow_mut().push((key.to_string(), what));
@@ -64,6 +66,7 @@ impl ContractProbe {
 
 impl Probe<V> for ContractProbe {
     fn on_start(&self, _c: usize, edge: &str, params: &EdgeParameters, _i: &ResolveInfo) {
+        self.param_maps.borrow_mut().insert((edge.to_string(), crate::reference::params_key(&crate::graph_adapter::params_map(params))));
         *self.calls.borrow_mut() += 1;
         self.shapes.borrow_mut().insert(format!("start:{edge}"));
         match self.world.schema.root_type().field(edge) {
@@ -86,6 +89,7 @@ impl Probe<V> for ContractProbe {
         }
     }
     fn on_neighbors(&self, _c: usize, ty: &str, edge: &str, params: &EdgeParameters, _i: &ResolveEdgeInfo) {
+        self.param_maps.borrow_mut().insert((edge.to_string(), crate::reference::params_key(&crate::graph_adapter::params_map(params))));
         *self.calls.borrow_mut() += 1;
         self.shapes.borrow_mut().insert(format!("edge:{ty}.{edge}"));
         let sm = &self.world.schema;
@@ -162,6 +166,19 @@ pub fn run(ctx: &Ctx) -> ! {
                 let mut rep = case.replay();
                 rep["observed"] = json!(what);
                 ctx.fail(key, what, rep);
+            }
+            // "(explicit, default, or null)": the map each edge receives is the one the query text and the
+            // schema imply -- the explicit value where one is written (also an explicit null), else the declared
+            // default, else null
+            if let Ok(allowed) = crate::reference::allowed_edge_params(&uni.world.schema, &case.cq.q) {
+                for pm in probe.param_maps.borrow().iter() {
+                    if !allowed.contains(pm) {
+                        let mut rep = case.replay();
+                        rep["observed"] = json!({"edge": pm.0, "parameters": pm.1});
+                        rep["expected"] = json!({"one_of": allowed.iter().filter(|a| a.0 == pm.0).map(|a| a.1.clone()).collect::<Vec<_>>()});
+                        ctx.fail("edge-parameter-values", &format!("edge {} received parameters {} which are not the explicit / default / null values the query implies", pm.0, pm.1), rep);
+                    }
+                }
             }
             let f = qast::features(&case.cq.q);
             if f.recurse > 0 && f.coercion > 0 {
